@@ -130,10 +130,30 @@ def _parse(stdout, stderr):
 
 
 def run_unit(unit, vacuity=False, extra_flags=(), use_cache=True, tag=""):
+    """One function whose text Verus rejects (a construct outside the dialect) must not take its unit down: when every
+    compile error lies inside extracted functions, those functions are stubbed (contract kept, reported undecided)
+    and the unit is run once more, so that the other functions keep their verdicts."""
+    first = r = _run_unit(unit, vacuity, extra_flags, use_cache, tag, None)
+    esc = {}
+    wall = r.wall_s
+    for _ in range(4):  # Verus may stop at the first rejected function
+        new = getattr(r, "dialect_escapes", None)
+        if not new or all(q in esc for q in new):
+            break
+        esc.update(new)
+        r = _run_unit(unit, vacuity, extra_flags, use_cache, tag, esc)
+        wall += r.wall_s
+        if not any("does not compile" in x or x.startswith("extract") for x in r.infra):
+            r.wall_s = wall
+            return r
+    return first
+
+
+def _run_unit(unit, vacuity, extra_flags, use_cache, tag, force_stub):
     r = UnitResult(unit)
     t0 = time.time()
     try:
-        gu = extract.generate(unit, vacuity=vacuity)
+        gu = extract.generate(unit, vacuity=vacuity, force_stub=force_stub)
     except extract.ExtractError as e:
         r.infra.append("extract: %s" % e)
         r.wall_s = time.time() - t0
@@ -215,6 +235,7 @@ def run_unit(unit, vacuity=False, extra_flags=(), use_cache=True, tag=""):
     r.verus["total_ms"] = tm.get("total")
 
     compile_errors = []
+    compile_targets = []
     for d in diags:
         if d.get("level") != "error":
             continue
@@ -236,6 +257,7 @@ def run_unit(unit, vacuity=False, extra_flags=(), use_cache=True, tag=""):
                 break
         if cls is None:
             compile_errors.append("%s (line %s)" % (msg[:300], prim[0].get("line_start") if prim else "?"))
+            compile_targets.append((target["qual"] if target else None, msg[:200]))
             continue
         psp = prim[0] if prim else {}
         expr = ""
@@ -260,6 +282,10 @@ def run_unit(unit, vacuity=False, extra_flags=(), use_cache=True, tag=""):
             r.infra.append("verification failure outside extracted functions (prelude/lemma): %s at line %s" % (msg, psp.get("line_start")))
             continue
         r.obligations[target["obligation"]]["failures"].append(fail)
+    if compile_errors and compile_targets and all(q for q, _ in compile_targets):
+        r.dialect_escapes = {}
+        for q, m in compile_targets:
+            r.dialect_escapes.setdefault(q, m)
     if compile_errors:
         r.infra.append("generated file does not compile under Verus (construct outside the dialect or renamed local): " + " ;; ".join(compile_errors[:4]))
 
